@@ -46,7 +46,8 @@ def padded_case(rng):
 def cases(rng, tier):
     k = 250 if tier == "quick" else 4000
     for i in range(k):
-        yield rvgen.sim_case(rng, "five", hazard=False, opts={"wide": i % 4 == 0}, trace=40, run=600, dprob=0.3, iprob=0.2, suite="sim-five-nohazard")
+        c_ = rvgen.sim_case(rng, "five", hazard=False, opts={"wide": i % 4 == 0}, trace=40, run=600, dprob=0.3, iprob=0.2, suite="sim-five-nohazard")
+        yield rvgen.as_text_case(c_) if i % 4 == 3 else c_        # every fourth program goes through the loader
     for i in range(120 if tier == "quick" else 2500):
         yield padded_case(rng)
     # deterministic schedules with the interlock off: faults next to producers / consumers / ecalls, ecall-rich programs
